@@ -22,6 +22,7 @@ type fsNode struct {
 	children map[string]*fsNode
 	data     value  // file content (string)
 	target   string // symlink target
+	mtime    value  // virtual clock reading (ns) when the content was written
 }
 
 type fsModel struct {
@@ -240,7 +241,11 @@ func (i *interpreter) fsInfo(n *fsNode, name string) iface {
 			size = int64(len(s))
 		}
 	}
-	return iface{t: t, v: structure{name, mode, size}}
+	var mt value = int64(1 << 40)
+	if n.mtime != nil {
+		mt = n.mtime
+	}
+	return iface{t: t, v: structure{name, mode, size, mt}}
 }
 
 func lastComponent(fr *frame, name value, n *fsNode) string {
@@ -272,6 +277,7 @@ func init() {
 	reg("FSFile", func(fr *frame, a []value) value {
 		n := fr.i.fs().mk(strArg(a[0]), 0)
 		n.data = a[1]
+		n.mtime = fr.i.clockPeek()
 		return nil
 	})
 	reg("FSSymlink", func(fr *frame, a []value) value {
@@ -348,6 +354,37 @@ func init() {
 		return tab[p]
 	}
 	externals["(*os.File).Close"] = func(fr *frame, a []value) value { return iface{} }
+	externals["(*os.File).Readdirnames"] = func(fr *frame, a []value) value {
+		f := fileOf(fr, a[0])
+		if f.node.kind != 1 {
+			return tuple{[]value(nil), fr.i.fsError("readdirent", f.name, &fsErr{fsENOTDIR})}
+		}
+		names := make([]string, 0, len(f.node.children))
+		for c := range f.node.children {
+			names = append(names, c)
+		}
+		sort.Strings(names)
+		out := make([]value, 0, len(names))
+		for _, c := range names {
+			out = append(out, c)
+		}
+		return tuple{out, iface{}}
+	}
+	// FSInfo.ModTime: the virtual clock reading at the last write, in the representation of time.Now
+	externals["("+zzPkg+"FSInfo).ModTime"] = func(fr *frame, a []value) value {
+		return structure{wallConst, a[0].(structure)[3], (*value)(nil)}
+	}
+	// the watcher's content digest, taken as ideal (collision free): the content itself
+	externals["(*"+modPath+"/pkg/hotreload.FileWatcher).hashFile"] = func(fr *frame, a []value) value {
+		n, e := fr.i.fsResolve(fr, a[1], true)
+		if e == nil && n.kind != 0 {
+			e = &fsErr{fsEISDIR}
+		}
+		if e != nil {
+			return tuple{"", fr.i.fsError("open", a[1], e)}
+		}
+		return tuple{n.data, iface{}}
+	}
 	externals["(*os.File).Name"] = func(fr *frame, a []value) value { return fileOf(fr, a[0]).name }
 	externals["(*os.File).Stat"] = func(fr *frame, a []value) value {
 		f := fileOf(fr, a[0])
